@@ -711,6 +711,8 @@ class Executor:
             return Adt(last, 0, {None: [Cell(a) for a in args]})
         if last in self.variant_owner and len(self.variant_owner[last]) == 1:
             return self.mk_enum(self.variant_owner[last][0], last, args)
+        if '::atomic::Ordering::' in s or s.startswith('atomic::Ordering::'):
+            return Opaque('atomic-ordering', last)         # memory orderings carry no data and never change a single-threaded result
         if last in self.variant_owner and getattr(self, '_dest_ty', None):
             # a bare variant name of several enums: the declared type of the destination decides
             base = re.sub(r'<.*$', '', self._dest_ty).split('::')[-1]
